@@ -62,10 +62,12 @@ def check_entries(rep, prog, ts_term):
     def get_message(*a):
         entry, pte = a[-2] if len(a) > 1 else None, a[-1]
         # (messages with leading / trailing white space: the line shows the message as the table gives it)
+        if entry == ("ENT", pte) and pte % 16 == 7:
+            return ""                       # (a table entry whose message is the empty string is shown as such)
         return ("MSG<%08X>" % pte) + (" \t" if pte % 2 else "") + ("" if pte % 4 else " ") if entry == ("ENT", pte) else "<message of another entry: %r>" % (entry,)
     stubs = {"call:" + IL + "PTETable.get_entry": get_entry, "call:" + IL + "PTETableEntry.get_message": get_message, "m:get_message": get_message}
     E = lambda t, q, p: struct.pack(">HHI", t, q, p)
-    samples = [b"", b"\x00" * 7, E(1, 2, 4), E(1, 2, 4) + b"\x01", E(0, 0, 0), E(0, 0, 5), E(0, 7, 0), E(9, 0, 0), E(0xFFFF, 0xABCD, 0xDEADBEEF),
+    samples = [E(5, 1, 0x17) + E(6, 2, 0x27), b"", b"\x00" * 7, E(1, 2, 4), E(1, 2, 4) + b"\x01", E(0, 0, 0), E(0, 0, 5), E(0, 7, 0), E(9, 0, 0), E(0xFFFF, 0xABCD, 0xDEADBEEF),
                E(3661, 1, 0x01040007) + E(0, 0, 0) + E(35999, 0xFFFF, 0x0000FFFF) + b"\x00\x01\x02",
                E(0, 0, 0) * 2 + E(5, 6, 6) + E(0xFFFE, 1, 1), E(65535, 0, 3) + E(1, 1, 1) * 3 + b"\xff" * 7]
     bad = None
@@ -255,9 +257,16 @@ def check_matches(rep, prog):
         h = "%08X" % p
         # wild cards, lower case, keys shorter / longer than a PTE, a key that is only a prefix
         pats |= {h[:4] + "****", "**" + h[2:], h.lower(), h[:4], h[:7], h + "0", "*" * 8, h[:2] + "*" * 5}
+        # a wild card stands for ONE hex digit: single-digit wild cards, and keys that differ from the PTE in the digit next
+        # to the wild card
+        for pos in range(8):
+            pats.add(h[:pos] + "*" + h[pos + 1:])
+            adj = pos ^ 1
+            hq = "%08X" % (p ^ (1 << (4 * (7 - adj))))
+            pats.add(hq[:pos] + "*" + hq[pos + 1:])
         for pattern in sorted(pats):
             try:
-                got = bool(evaluate(m, {pte: p, pat: pattern}))
+                got = bool(evaluate(m, pelx.with_heap(I, {pte: p, pat: pattern, Op("len", pat): len(pattern)})))
             except CannotEval as e:
                 raise AnalysisError("matches() summary not evaluable: %s" % e)
             want_m = ref_match(pattern, p)
